@@ -280,8 +280,18 @@ def r6(cx):
             cx.bad("C07.R6", "varlink:emitter:%s" % name, LIB, "emitter %s not found" % fn); continue
         f = cands[0]
         lits = [s["text"] for s in f.ev("str")]
+        # the name may be a named constant: take the string constants of the compiled function as well
+        for mb in cx.mir.bodies("varlink"):
+            if mb.promoted is None and mb.path.endswith("::" + fn):
+                for st in mb.stmts():
+                    for o in (st.ops if st.kind == "assign" else []):
+                        if o.is_const and o.cstr(): lits.append(o.cstr())
+                for t in mb.calls():
+                    for a in t.args:
+                        if a.is_const and a.cstr(): lits.append(a.cstr())
         structs = [e for e in f.ev("struct")]
-        good = "org.varlink.service." + name in lits and any(e["text"] == "Error" + name and [x[0] for x in e["fields"]] == [field] for e in structs)
+        good = "org.varlink.service." + name in lits and not [l for l in lits if l.startswith("org.varlink.service.") and l != "org.varlink.service." + name] \
+               and any(e["text"] == "Error" + name and [x[0] for x in e["fields"]] == [field] for e in structs)
         cx.check(good, "C07.R6", "varlink:emitter:%s" % name, "%s:%d" % (LIB, f.line), "%s emits %s with %s" % (fn, lits, [(e["text"], e["fields"]) for e in structs]),
                  note_ok="%s -> \"org.varlink.service.%s\" + Error%s{%s}" % (fn, name, name, field))
         st = ast.items(LIB, kind="struct", name="Error" + name)
